@@ -305,7 +305,11 @@ func c05VerifySignature(r *Run) {
 				r.Valuations++
 				if ret := anyReach(reach, accept); ret != nil {
 					badCl = append(badCl, cl.name)
-					detail = fmt.Sprintf("the declared signature algorithm code %d (not RSA/DSA/ECDSA) with %s reaches the accepting return at %s: the signature is reported valid without any cryptographic check (the declared algorithm / key type pair must be refused with an error)", x, cl, r.Where(ret))
+					how := "no cryptographic check lies on the way"
+					if v := reachesAny(reach, allVerifiers); v != nil {
+						how = "a signature that " + instrName(v)[len("call "):] + " accepts is reported valid under an algorithm identifier that is none of RSA/DSA/ECDSA"
+					}
+					detail = fmt.Sprintf("the declared signature algorithm code %d (not RSA/DSA/ECDSA) with %s reaches the accepting return at %s: %s (this algorithm / key type pair must be refused with an error)", x, cl, r.Where(ret), how)
 				} else if v := reachesAny(reach, allVerifiers); v != nil {
 					badCl = append(badCl, cl.name)
 					detail = fmt.Sprintf("the declared signature algorithm code %d (not RSA/DSA/ECDSA) with %s reaches %s at %s", x, cl, instrName(v), r.Where(v))
